@@ -19,6 +19,7 @@ type TextSpec struct {
 	Indent int    `json:"indent"`         // 0 = one line per document
 	Wide   bool   `json:"wide,omitempty"` // multi-byte, double-width and combining characters in strings
 	Long   bool   `json:"long,omitempty"` // some lines far longer than an excerpt
+	Tiny   bool   `json:"tiny,omitempty"` // one tiny document per line (tens of thousands of lines)
 	Raw    string `json:"raw,omitempty"`  // explicit text (minimised cases)
 	HasRaw bool   `json:"has_raw,omitempty"`
 }
@@ -146,6 +147,16 @@ func (s *TextSpec) Build() (string, []int) {
 	}
 	g := &textGen{r: kernel.NewRand(kernel.Mix(s.Seed, 17)), spec: s}
 	var starts []int
+	if s.Tiny {
+		for g.sb.Len() < s.Bytes {
+			if g.sb.Len()%4096 < 4 {
+				starts = append(starts, g.sb.Len())
+			}
+			g.sb.WriteString(kernel.Pick(g.r, []string{"1", "[]", "{}", "23", `"a"`, "null"}))
+			g.sb.WriteString(s.Term)
+		}
+		return g.sb.String(), starts
+	}
 	docs := max(1, s.Docs)
 	for d := 0; d < docs; d++ {
 		budget := s.Bytes / docs
